@@ -90,9 +90,9 @@ CLAIMED = {
   note="Trusts fcmodel's query functions and the doc readings written next to them (first-node semantics for InSubtree and CanonAtSlot; heads = blocks without a child block; Search compared as sets). Canonical-dependent queries are asked after a head flush because votes are batched. Trees <=40 nodes.",
   ref="§3 C11, Appendix A"),
  "C03": dict(
-  technique="mutation-based property testing (rapid): single-fault mutations of valid-by-construction blocks from a catalogue tied to spec assertions, re-rooted and re-signed so that the targeted assertion is reached, plus byte-level corruption of block encodings; the from-spec reference decides accept/reject; verdicts compared with and without result validation; panics recovered",
+  technique="mutation-based property testing (rapid): single-fault mutations of valid-by-construction blocks from a catalogue tied to spec assertions, re-rooted and re-signed so that the targeted assertion is reached, plus a byte-level differential (rapid edits in both tiers, native coverage-guided go fuzzing as the last stage of the thorough tier) in which every inner signature is redone so that field edits reach the semantic checks; the from-spec reference decides accept/reject; verdicts compared with and without result validation; panics recovered",
   level="exploration",
-  text="On every block of generated chains up to 8 of ~75 catalogue mutations are applied (header fields, outer signature under another key/domain/fork version/genesis root, randao, attestation data/bits/signature incl. subset and cross-domain signatures, attester and proposer slashing shape/signature/index faults, deposit count/proof/order/amount, exit epoch/key/domain/index/duplicate and the Deneb fixed-domain rule, BLS-change faults, sync-aggregate faults, payload parent hash/randao/timestamp/withdrawals/blob limit, lists over limit, duplicated operations, and four benign edits that must still be accepted with the reference post-state). A mutated block the reference rejects must make the library return an error, never a panic; because a stale declared state root would hide a missing body check, the comparison is repeated with validate_result=false. Byte-level corruptions (bit flips, truncation, splice, 4-byte overwrite) must be undecodable, rejected, or decode to the very block that was signed. Sampling; multi-fault blocks only via the byte-level generator.",
+  text="On every block of generated chains (free generator plus directed tours: queued activations, withdrawal edges, deposit-carrying blocks) up to 12 of 85 catalogue mutations are applied (one per conjunct of the withdrawal and slashability predicates, header fields, outer signature under another key/domain/fork version/genesis root, randao, attestation data/bits/signature incl. subset and cross-domain signatures, attester and proposer slashing shape/signature/index faults, deposit count/proof/order/amount, exit epoch/key/domain/index/duplicate and the Deneb fixed-domain rule, BLS-change faults, sync-aggregate faults, payload parent hash/randao/timestamp/withdrawals/blob limit, lists over limit, duplicated operations, and four benign edits that must still be accepted with the reference post-state). A mutated block the reference rejects must make the library return an error, never a panic; because a stale declared state root would hide a missing body check, the comparison is repeated with validate_result=false. Byte-level corruptions (bit flips, truncation, splice, 4-byte overwrite) must be undecodable, rejected, or decode to the very block that was signed; on seven fixed snapshots (>=1 per fork) bytes that both decoders accept are judged as-is, with the outer signature redone and with all inner signatures redone: library accepts <=> reference accepts, equal post-states, no panic. A correctly signed block by a slashed proposer must be refused. Sampling.",
   note="Trusted base: refspec/refssz, BLS library. Non-trivial cases are those the reference rejects with a message of the targeted assertion family (measured per (fork, mutation id)). Which error the library returns is irrelevant.",
   ref="§3 C03"),
  "C15": dict(
@@ -102,7 +102,7 @@ CLAIMED = {
   note="Trusted: refssz and the accessor table (spec_tables/state_accessors.txt, harness transcription). The chain simulator stops at deneb, so electra is covered by accessor and raw-copy histories only; electra's pending queues have no typed accessor and are only checked for staying unchanged. Generic ztyp methods promoted onto the views are listed as uncovered in the evidence.",
   ref="§3 C15"),
  "C04": dict(
-  technique="property-based differential testing (rapid) with rapid-mutated byte strings in the thorough tier: reference-encoded values of every registered SSZ type cross into the library as bytes under mainnet, minimal and two tiny custom presets; decode/encode/ByteLength/FixedLength/JSON/YAML round trips, JSON compared by spec field name; truncation, over-limit and offset-corruption inputs derived from each value and mutated/arbitrary bytes judged against an independent strict SSZ decoder; a go/parser scan measures type coverage",
+  technique="property-based differential testing (rapid) with rapid-mutated byte strings and, as the last stage of the thorough tier, native coverage-guided go fuzzing of the same differential decode body: reference-encoded values of every registered SSZ type cross into the library as bytes under mainnet, minimal and three tiny custom presets (one with non-power-of-two vector lengths and pairwise different list limits); decode/encode/ByteLength/FixedLength/JSON/YAML round trips, decoding into a recycled destination (fixed-size types), JSON compared by spec field name; truncation, over-limit and offset-corruption inputs derived from each value and mutated/arbitrary bytes judged against an independent strict SSZ decoder; a go/parser scan measures type coverage",
   level="exploration",
   text="No violation after repair in ~87k (quick) / ~1.7M (thorough) cases per seed over 156 types x 4 presets (every type x family, every list-bearing type at its limits under the custom presets), with ~1M derived malformed inputs per quick run; found 6 defects from scratch (three wrong ByteLength/FixedLength families, full-bitlist refusal at limit%8==0, empty-span list elements accepted) and catches 7 textual mutants incl. a symmetric Serialize+Deserialize field swap (through the by-name JSON comparison). Values are sampled.",
   note="Trusted: refssz and the transcribed schema table (cross-checked three ways in C05). Tolerated decoder leniencies outside the three refusal classes the property names: trailing bytes after a fixed-size top-level object; set padding bits in JustificationBits/SyncnetBits; nil slices marshal as JSON null. MAX_EXTRA_DATA_BYTES/BYTES_PER_LOGS_BLOOM are compile-time constants in the library and not varied. YAML judged by round trip only. uncovered = [common.specObj (unexported)].",
